@@ -268,10 +268,10 @@ func checkWriters(p *core.Prog, r *core.Report, rule, what string, f *types.Var,
 			}
 		}
 		key := what + "←" + name
-		if seen[key+string(w.Kind)] {
+		if seen[key] {
 			continue
 		}
-		seen[key+string(w.Kind)] = true
+		seen[key] = true
 		_, ok := allowed[name]
 		r.Check(ok, rule, key, fmt.Sprintf("only the documented functions write %s", what),
 			fmt.Sprintf("%s of %s in %s, which is not an allowed writer", w.Kind, what, name), p.Pos(core.InstrPos(w.Instr)))
